@@ -4,7 +4,7 @@ from __future__ import annotations
 import ast
 from typing import Any
 
-from ..astutil import Locals, call_name, norm, receivers, region, role_anon, short, where
+from ..astutil import Locals, call_name, names_in, norm, receivers, region, role_anon, short, where
 from ..cfg import walk_own
 from ..core import PKG, AnalysisError, Report
 
@@ -12,7 +12,7 @@ LEVEL = ("effect-scope clauses (two-run comparisons are not decided): plumbing C
          "identity, decided by symbolic execution on the value that reaches each field on every path (defaults only where the file's "
          "value is None); every read of every Config field, in Python (typed receivers "
          "from the abstract interpreter) and in templates, is inside the function/template that the README documents for that "
-         "option, and no option is unread; options are applied uniformly (encoding on every text write of the package, field_prefix on "
+         "option or inside a private helper working only for it, and no option is unread; options are applied uniformly (encoding on every text write of the package, field_prefix on "
          "every name constructor, one media-type classifier whose result - never the raw key - drives classification while the raw key is "
          "what is emitted); tags keep document order, every collection receives the endpoint object itself and the builder renders each "
          "endpoint module from that endpoint; the package name follows the project name in effect.")
@@ -40,6 +40,12 @@ ALLOWED = {
 }
 
 
+# functions with a documented effect of their own: the readers named above and the stages of Project.build.  A read inside one of them
+# belongs to it; a read inside any other private helper belongs to whoever calls the helper.
+_UNITS = {fn for fns in ALLOWED.values() for fn in fns if not fn.startswith("*") and not fn.endswith(".jinja")} | {
+    "Project._build_models", "Project._build_api", "Project._build_setup_py", "Project._run_command", "Project._get_errors"}
+
+
 def run(rep: Report, ctx: Any) -> str:
     ix = ctx.py
     it, ji = ctx.flow
@@ -48,12 +54,18 @@ def run(rep: Report, ctx: Any) -> str:
                       "of the same name (another value only where the file's value `is None`, or an empty container where it is falsy), "
                       "every CLI option reaches the same-named parameter unmodified, the config file named on the command line is loaded "
                       "whenever one is named")
-    rep.rule("R16.2", "every read of a Config field happens in the function/template documented for that option; no option is unread")
+    rep.rule("R16.2", "every read of a Config field happens in the function/template documented for that option (a read inside a private "
+                      "helper that has no documented effect of its own belongs to the functions that call the helper; field_prefix / "
+                      "file_encoding are documented by where their value ends up - the prefix of a name constructor, the encoding of a "
+                      "write - directly, through a local or through a parameter of a private helper used for nothing else); no option is unread")
     rep.rule("R16.3", "uniform application: every text write in the package (write_text / open for writing) passes "
                       "encoding=<Config>.file_encoding; every name constructor on document text "
-                      "passes config.field_prefix; media types are classified only on the result of get_content_type while the "
-                      "emitted Content-Type is the document's own key")
-    rep.rule("R16.4", "generate_all_tags: the same endpoint object is appended to every collection; tags keep the document's order; the "
+                      "passes config.field_prefix (either one also through a local alias or a parameter of a private helper, judged at every "
+                      "call site); response_from_data and body_from_data (private helpers inlined, executed symbolically) classify media types "
+                      "through get_content_type and take no decision on the key handed to it, while the emitted Content-Type is that key")
+    rep.rule("R16.4", "generate_all_tags: on every path the tags handed to Endpoint.from_data are the operation's own in document order, all "
+                      "of them when the option is on and the first one when it is off; the endpoint object itself is appended, in a loop over "
+                      "all those tags / their collections, to the collection selected by the loop variable; the "
                       "builder renders the module of every (collection, endpoint) pair from that very endpoint on every path")
     rep.rule("R16.5", "project_name_override / package_name_override: where the package name is not overridden it is converted from the "
                       "project name in effect (override included) by replacing `-` with `_`")
@@ -63,7 +75,7 @@ def run(rep: Report, ctx: Any) -> str:
     fs = cfgc.methods.get("from_sources")
     rep.require(fs, "Config.from_sources")
     fields = list(ix.all_fields(cfgc))
-    rep.floor("config_fields", len(fields), 17)
+    rep.floor("config_fields", len(fields), 9)
     # ---- R16.1 -----------------------------------------------------------------------------------------------------
     # Decided on values, not on the spelling of one call: from_sources is executed symbolically (every path through its tests, locals
     # replaced by what they are bound from, dict literals filled key by key, private helpers inlined); on every path the value that
@@ -72,31 +84,31 @@ def run(rep: Report, ctx: Any) -> str:
     _r161_cli(rep, ix, fs)
 
     # ---- R16.2 ---------------------------------------------------------------------------------------------------------
+    # A read is attributed to the documented function it belongs to: a private helper that is not itself a documented reader counts as
+    # part of every function that calls it (extract-helper moves code, not behaviour).  The two options that are documented by the
+    # position their value ends up in (the prefix of a name constructor, the encoding of a write) are recognised by where the value read
+    # flows - directly, through a local that is used for nothing else, or through a parameter of a private helper used for nothing else.
+    callers = _callers(ix)
     reads: dict[str, set[str]] = {f_: set() for f_ in fields}
     n_reads = 0
     for f in ix.all_functions:
+        if f.parent is not None:
+            continue  # a closure is walked with the function that contains it
         for n in ast.walk(f.node):
             if isinstance(n, ast.Attribute) and n.attr in reads and isinstance(n.ctx, ast.Load):
-                av = it.node_av.get(id(n.value))
-                if av is None or cfgc.qual not in av.types:
+                if not _is_config_attr(n, n.attr, it, cfgc):
                     continue
                 n_reads += 1
-                site = short(f)
-                par = _parent(f.node, n)
-                if n.attr == "field_prefix" and isinstance(par, ast.Call) and call_name(par).rsplit(".", 1)[-1] in ("PythonIdentifier", "ClassName", "set_python_name"):
-                    site = "*name-constructor-argument*"
-                if n.attr == "field_prefix" and isinstance(par, ast.keyword) and par.arg == "prefix":
-                    site = "*name-constructor-argument*"
-                if n.attr == "file_encoding" and isinstance(par, ast.keyword) and par.arg == "encoding":
-                    site = "*encoding-argument*"
-                if f.parent is not None:
-                    site = short(f.parent)
-                reads[n.attr].add(site)
+                allowed = ALLOWED.get(n.attr, set())
+                if n.attr in _VALUE_SINKS and _VALUE_SINKS[n.attr][0] in allowed and _reaches_only(ix, f, n, _VALUE_SINKS[n.attr][1]):
+                    reads[n.attr].add(_VALUE_SINKS[n.attr][0])
+                else:
+                    reads[n.attr] |= _read_sites(f, allowed, callers, set())
     for k, (txt, attr, line, types) in ji.attr_reads.items():
         if attr in reads and cfgc.qual in types:
             n_reads += 1
             reads[attr].add(k[0])
-    rep.floor("config_reads", n_reads, 40)
+    rep.floor("config_reads", n_reads, 30)
     for fld in fields:
         allowed = ALLOWED.get(fld)
         rep.require(allowed is not None, f"documented readers of {fld}")
@@ -121,10 +133,9 @@ def run(rep: Report, ctx: Any) -> str:
                 continue
             enc = {k.arg: k.value for k in c.keywords}.get("encoding")
             fl_ = fl_ or Locals(f.node)
-            srcs = [enc] if enc is not None else []
-            if isinstance(enc, ast.Name) and fl_.values_of(enc.id):
-                srcs = fl_.values_of(enc.id)  # a local alias of the option
-            ok = bool(srcs) and all(_is_config_encoding(v, it, cfgc) for v in srcs)
+            # a local alias of the option / a parameter of a private writer helper stands for what it is given
+            srcs = _origins(ix, f, enc, callers) if enc is not None else []
+            ok = bool(srcs) and all(_is_config_attr(v, "file_encoding", it, cfgc) for _, v in srcs)
             tgt = c.func.value if mode == "write_text" else (c.args[0] if c.args else c.func)
             if isinstance(tgt, ast.Name) and len(fl_.values_of(tgt.id)) == 1:
                 tgt = fl_.values_of(tgt.id)[0]  # the key names what the path is computed from, not the local that holds it
@@ -133,7 +144,7 @@ def run(rep: Report, ctx: Any) -> str:
     # floor: writes performed by Project.build, a private helper's writes counted at each place it is called from
     pb = ix.cls("Project").methods.get("build")
     rep.require(pb, "Project.build")
-    rep.floor("write_text_sites", _write_events(ix, pb, set()), 15)
+    rep.floor("write_text_sites", _write_events(ix, pb, set()), 8)
     n_pi = 0
     for f in ix.all_functions:
         if f.module.name == f"{PKG}.utils":
@@ -144,82 +155,452 @@ def run(rep: Report, ctx: Any) -> str:
                 pre = args.get("prefix", c.args[1] if len(c.args) > 1 else None)
                 if pre is None:
                     continue
-                n_pi += 1
-                ptxt = norm(pre)
-                ok = ptxt.endswith("config.field_prefix")
-                if isinstance(pre, ast.Constant) and pre.value in ("tag", ""):
-                    ok = True  # frozen: tags are prefixed 'tag'; the constant name 'additional' needs no prefix
-                rep.check(ok, "R16.3", f"{short(f)}::{call_name(c).rsplit('.', 1)[-1]}({norm(c.args[0] if c.args else args.get('value'))[:30]})",
-                          "a name derived from the document does not use the configured field_prefix", where(f, c), lhs=ptxt, rhs="config.field_prefix")
-    rep.floor("name_constructor_sites", n_pi, 20)
-    # media types
-    for fname in ("responses._source_by_content_type", "bodies.body_from_data"):
-        f = ix.func(fname)
-        raw = None
-        parsed = None
-        for n in ast.walk(f.node):
-            if isinstance(n, ast.Assign) and isinstance(n.value, ast.Call) and call_name(n.value).endswith("get_content_type"):
-                parsed = norm(n.targets[0])
-                raw = norm(n.value.args[0]) if n.value.args else None  # the document's own key is whatever is handed to the classifier
-        rep.check(parsed is not None, "R16.3", f"{short(f)}::classifies-through-get_content_type", "media types are not classified through get_content_type",
-                  where(f, f.node))
-        if parsed is None:
-            continue
-        bad = []
-        for n in ast.walk(f.node):
-            tests = []
-            if isinstance(n, ast.Compare):
-                tests = [n.left] + list(n.comparators)
-            elif isinstance(n, ast.Call) and isinstance(n.func, ast.Attribute) and n.func.attr in ("startswith", "endswith", "get") and \
-                    not call_name(n).endswith("get_content_type"):
-                tests = [n.func.value] + list(n.args)
-            for t in tests:
-                if isinstance(t, ast.Name) and t.id == raw:
-                    bad.append(norm(n)[:60])
-        rep.check(not bad, "R16.3", f"{short(f)}::classification-uses-overridden-type",
-                  f"the raw media type key is tested directly ({bad}): content_type_overrides has no effect on this decision", where(f, f.node),
-                  lhs=bad, rhs=f"only `{parsed}` is tested")
-    bfd = ix.func("bodies.body_from_data")
-    bodies = [c for c in ast.walk(bfd.node) if isinstance(c, ast.Call) and call_name(c) == "Body"]
-    rep.require(bodies, "Body(...) construction")
-    for c in bodies:
-        loop = next((n for n in ast.walk(bfd.node) if isinstance(n, ast.For) and norm(n.iter).endswith(".items()") and any(x is c for x in ast.walk(n))), None)
-        rep.require(loop, "media type loop")
-        keyvar = norm(loop.target.elts[0]) if isinstance(loop.target, ast.Tuple) else None
-        ct = {k.arg: norm(k.value) for k in c.keywords}.get("content_type")
-        rep.check(ct == keyvar, "R16.3", "body_from_data::content-type-is-the-documents-key",
-                  "the Content-Type that will be sent is the normalised/overridden media type, not the one the document declares", where(bfd, c),
-                  lhs=ct, rhs=keyvar)
+                # the prefix is the option itself, however it travels there (a local read once, a parameter of a private helper);
+                # frozen: tags are prefixed 'tag'; the constant name 'additional' needs no prefix
+                srcs = _origins(ix, f, pre, callers)
+                n_pi += len(srcs)  # a constructor inside a private helper counts once per place that supplies its prefix
+                ok = all(_is_config_attr(v, "field_prefix", it, cfgc) or (isinstance(v, ast.Constant) and v.value in ("tag", "")) for _, v in srcs)
+                named = c.args[0] if c.args else args.get("value")
+                rep.check(ok, "R16.3", f"{short(f)}::{call_name(c).rsplit('.', 1)[-1]}({role_anon(named, f.node)[:40] if named is not None else ''})",
+                          "a name derived from the document does not use the configured field_prefix", where(f, c),
+                          lhs=sorted({norm(v) for _, v in srcs}), rhs="config.field_prefix")
+    rep.floor("name_constructor_sites", n_pi, 12)
+    _r163_media_types(rep, ix)
     # ---- R16.4 --------------------------------------------------------------------------------------------------------------
-    fd = ix.func("EndpointCollection.from_data")
-    fl = Locals(fd.node)
-    efd_calls = [c for c in ast.walk(fd.node) if isinstance(c, ast.Call) and call_name(c) == "Endpoint.from_data"]
-    rep.require(efd_calls, "Endpoint.from_data(...) call")
-    tagv = next((norm(k.value) for k in efd_calls[0].keywords if k.arg == "tags"), "")
-    tags = [n for n in ast.walk(fd.node) if isinstance(n, ast.Assign) and norm(n.targets[0]) == tagv]
-    rep.require(tags, "tags assignment")
-    first = tags[0].value
-    ops = set(fl.bound_from(lambda v: v.startswith("getattr("), "assign"))
-    ordered = isinstance(first, ast.ListComp) and not any(isinstance(x, ast.Call) and call_name(x) in ("sorted", "set", "frozenset") for x in ast.walk(first)) \
-        and any(norm(first.generators[0].iter).startswith(f"{o}.tags") for o in ops)
-    rep.check(ordered, "R16.4", "EndpointCollection.from_data::tags-keep-document-order",
-              "tags are reordered / de-duplicated through a set: with generate_all_tags off the module lands under another tag than the first listed",
-              where(fd, tags[0]), lhs=norm(first)[:80], rhs="[PythonIdentifier(tag) for tag in operation.tags or ['default']]")
-    cut = [n for n in tags[1:] if norm(n.value) == f"{tagv}[:1]"]
-    guard = next((n for n in ast.walk(fd.node) if isinstance(n, ast.If) and "generate_all_tags" in norm(n.test)), None)
-    rep.check(bool(cut) and guard is not None and norm(guard.test) == "not config.generate_all_tags" and cut[0] in guard.body, "R16.4",
-              "EndpointCollection.from_data::first-tag-unless-all", "`tags[:1]` is not applied exactly when generate_all_tags is off", where(fd, fd.node))
-    # every collection of the operation receives the endpoint object itself (the local bound from Endpoint.from_data / add_parameters ...)
-    colls = set(fl.bound_from(lambda v: v.startswith("[") and ".setdefault(" in v, "assign"))
-    endpoints = set(fl.bound_from(lambda v: v.startswith("Endpoint.from_data("), "assign[0]"))
-    apps = [c for lp in ast.walk(fd.node) if isinstance(lp, ast.For) and norm(lp.iter) in colls
-            for r, c in receivers(lp, "append") if r == f"{norm(lp.target)}.endpoints"]
-    rep.check(bool(apps) and all(c.args and norm(c.args[0]) in endpoints for c in apps), "R16.4", "EndpointCollection.from_data::same-endpoint-object",
-              "collections receive per-tag copies", where(fd, fd.node), lhs=[norm(c) for c in apps], rhs="<collection>.endpoints.append(<endpoint>)")
+    _r164_tags(rep, ix, callers)
     _r164_builder(rep, ix)
     _r165_package_name(rep, ix)
     rep.not_decided += ["'only rename' / 'same wire behaviour' across two runs with different option values"]
     return LEVEL
+
+
+# ---- where a value comes from / goes to, across locals and private helpers ------------------------------------------------------------
+
+def _is_private(f: Any) -> bool:
+    return f.name.startswith("_") and not f.name.startswith("__")
+
+
+def _callers(ix: Any) -> dict[str, list[Any]]:
+    """private helper -> the functions that call it as one (the inverse of astutil.region at depth 1)"""
+    out: dict[str, list[Any]] = {}
+    for g in ix.all_functions:
+        for h in region(ix, g, 1)[1:]:
+            if g.qual != h.qual:
+                out.setdefault(h.qual, []).append(g)
+    return out
+
+
+def _outermost(f: Any) -> Any:
+    while f.parent is not None:
+        f = f.parent
+    return f
+
+
+def _read_sites(f: Any, allowed: set[str], callers: dict[str, list[Any]], seen: set[str]) -> set[str]:
+    """the function(s) a read inside f belongs to: f itself when it is a documented reader (of this or of another option: a unit with an
+    effect of its own) or part of the interface, else - f being a private helper - whoever it works for"""
+    f = _outermost(f)
+    if short(f) in allowed or short(f) in _UNITS or not _is_private(f) or f.qual in seen:
+        return {short(f)}
+    out: set[str] = set()
+    for g in callers.get(f.qual, []):
+        out |= _read_sites(g, allowed, callers, seen | {f.qual})
+    return out or {short(f)}
+
+
+def _calls_of(g: Any, h: Any) -> list[ast.Call]:
+    return [c for c in ast.walk(g.node) if isinstance(c, ast.Call) and call_name(c).rsplit(".", 1)[-1] == h.name]
+
+
+def _param_names(f: Any) -> set[str]:
+    return {p.arg for p in f.params}
+
+
+def _reaches_only(ix: Any, f: Any, n: ast.AST, sink: Any, depth: int = 3) -> bool:
+    """the value of expression n (in f) is used only in a position `sink(parent, node)` accepts: directly, through a local that it is
+    assigned to and that is used nowhere else, or as the argument of a private helper whose parameter is used nowhere else"""
+    par = _parent(f.node, n)
+    if par is None:
+        return False
+    if sink(par, n):
+        return True
+    if depth <= 0:
+        return False
+    if isinstance(par, (ast.Tuple, ast.List)) and not any(isinstance(x, ast.Starred) for x in par.elts):
+        # `a, b = x, y`: the value goes to the target at its own position
+        asg = _parent(f.node, par)
+        if isinstance(asg, ast.Assign) and asg.value is par and all(isinstance(t, (ast.Tuple, ast.List)) and len(t.elts) == len(par.elts) for t in asg.targets):
+            i = next(i for i, x in enumerate(par.elts) if x is n)
+            targets = [t.elts[i] for t in asg.targets]
+            if not all(isinstance(t, ast.Name) for t in targets):
+                return False
+            names = {t.id for t in targets}
+            uses = [m for m in ast.walk(f.node) if isinstance(m, ast.Name) and m.id in names and isinstance(m.ctx, ast.Load)]
+            return all(_reaches_only(ix, f, m, sink, depth - 1) for m in uses)
+        return False
+    if isinstance(par, (ast.Assign, ast.AnnAssign, ast.NamedExpr)) and par.value is n:
+        targets = par.targets if isinstance(par, ast.Assign) else [par.target]
+        if not all(isinstance(t, ast.Name) for t in targets):
+            return False
+        if isinstance(par, ast.NamedExpr) and not isinstance(_parent(f.node, par), ast.Expr) and not _reaches_only(ix, f, par, sink, depth - 1):
+            return False  # the walrus expression is itself a use of the value
+        names = {t.id for t in targets}
+        uses = [m for m in ast.walk(f.node) if isinstance(m, ast.Name) and m.id in names and isinstance(m.ctx, ast.Load)]
+        return all(_reaches_only(ix, f, m, sink, depth - 1) for m in uses)
+    call = par if isinstance(par, ast.Call) else _parent(f.node, par) if isinstance(par, ast.keyword) else None
+    if isinstance(call, ast.Call) and call.func is not n:
+        h = next((h for h in region(ix, f, 1)[1:] if h.name == call_name(call).rsplit(".", 1)[-1]), None)
+        if h is not None:
+            pname = next((k for k, v in _bind_call(call, h).items() if v is n), None)
+            if pname is None or pname not in _param_names(h):
+                return False
+            uses = [m for m in ast.walk(h.node) if isinstance(m, ast.Name) and m.id == pname and isinstance(m.ctx, ast.Load)]
+            stores = [m for m in ast.walk(h.node) if isinstance(m, ast.Name) and m.id == pname and isinstance(m.ctx, ast.Store)]
+            return not stores and all(_reaches_only(ix, h, m, sink, depth - 1) for m in uses)
+    return False
+
+
+def _origins(ix: Any, f: Any, e: ast.AST, callers: dict[str, list[Any]], depth: int = 3, unpack: bool = False, stop: Any = None) -> list[tuple[Any, ast.AST]]:
+    """(function, expression) pairs the value of e (in f) is taken from: a local stands for everything it is assigned, a parameter of a
+    private helper for what each of its call sites passes (its default where a call passes nothing); anything else stands for itself.
+    With `unpack`, a name bound by unpacking `a, b = call(...)` stands for `call(...)[i]`."""
+    if isinstance(e, ast.NamedExpr):
+        return _origins(ix, f, e.value, callers, depth, unpack, stop)  # `(x := v)` has the value of v
+    if not isinstance(e, ast.Name) or depth <= 0 or (stop is not None and stop(f, e)):
+        return [(f, e)]
+    defs = Locals(f.node).defs.get(e.id, [])
+    if defs:
+        out: list[tuple[Any, ast.AST]] = []
+        for k, _, v in defs:
+            if v is None or not k.startswith("assign"):
+                return [(f, e)]  # a loop / with / augmented binding: not a plain copy of something
+            if "[" in k:
+                idx = [int(x) for x in k[len("assign"):].replace("]", "").split("[") if x]
+                if len(idx) != 1:
+                    return [(f, e)]
+                if isinstance(v, (ast.Tuple, ast.List)) and idx[0] < len(v.elts) and not any(isinstance(x, ast.Starred) for x in v.elts):
+                    out += _origins(ix, f, v.elts[idx[0]], callers, depth - 1, unpack, stop)  # `a, b = x, y`
+                elif unpack:
+                    out.append((f, ast.copy_location(ast.Subscript(value=v, slice=ast.Constant(value=idx[0]), ctx=ast.Load()), v)))
+                else:
+                    return [(f, e)]
+                continue
+            out += [(f, v)] if isinstance(v, ast.Name) and v.id == e.id else _origins(ix, f, v, callers, depth - 1, unpack, stop)
+        return out
+    if e.id in _param_names(f) and _is_private(f) and callers.get(f.qual):
+        a = f.node.args
+        allpos = [*a.posonlyargs, *a.args]
+        defaults = {p.arg: d for p, d in zip(allpos[len(allpos) - len(a.defaults):], a.defaults)}
+        defaults.update({p.arg: d for p, d in zip(a.kwonlyargs, a.kw_defaults) if d is not None})
+        out = []
+        for g in callers[f.qual]:
+            for c in _calls_of(g, f):
+                if any(isinstance(x, ast.Starred) for x in c.args) or any(k.arg is None for k in c.keywords):
+                    return [(f, e)]
+                v = _bind_call(c, f).get(e.id)
+                if v is not None:
+                    out += _origins(ix, g, v, callers, depth - 1, unpack, stop)
+                elif e.id in defaults:
+                    out.append((f, defaults[e.id]))
+                else:
+                    return [(f, e)]
+        return out or [(f, e)]
+    return [(f, e)]
+
+
+_NAME_CTORS = ("PythonIdentifier", "ClassName")  # (value, prefix, ...)
+
+
+def _is_prefix_position(par: ast.AST, n: ast.AST) -> bool:
+    """the prefix handed to a name constructor: its second argument, or any keyword named `prefix`"""
+    if isinstance(par, ast.keyword):
+        return par.arg == "prefix"
+    return isinstance(par, ast.Call) and len(par.args) > 1 and par.args[1] is n and not isinstance(par.args[0], ast.Starred) and _last(par) in _NAME_CTORS
+
+
+def _is_encoding_position(par: ast.AST, n: ast.AST) -> bool:
+    return isinstance(par, ast.keyword) and par.arg == "encoding"
+
+
+# options documented by the position their value is used in: marker in ALLOWED, the position
+_VALUE_SINKS = {
+    "field_prefix": ("*name-constructor-argument*", _is_prefix_position),
+    "file_encoding": ("*encoding-argument*", _is_encoding_position),
+}
+
+
+def _is_config_attr(v: ast.AST, attr: str, it: Any, cfgc: Any) -> bool:
+    """`<Config object>.<attr>`: the receiver is a Config for the abstract interpreter, or (where it has no value for the node) is
+    spelled as the `config` attribute / parameter"""
+    if not (isinstance(v, ast.Attribute) and v.attr == attr):
+        return False
+    av = it.node_av.get(id(v.value))
+    if av is not None and av.types:
+        return cfgc.qual in av.types
+    return norm(v.value).rsplit(".", 1)[-1] == "config"
+
+
+# ---- R16.3: media types -------------------------------------------------------------------------------------------------------------
+
+_CLASSIFIER = "get_content_type"
+_KEY_TESTS = ("startswith", "endswith", "get", "find", "index", "count", "__contains__", "__eq__")
+
+
+def _last(c: ast.Call) -> str:
+    return call_name(c).rsplit(".", 1)[-1]
+
+
+def _expand_argument_helpers(sx: "SymExec") -> None:
+    """a private helper called in argument position (`xs.append(_make(...))`) is executed as well, so that the calls it makes are seen with
+    the caller's values"""
+    i = 0
+    while i < len(sx.hits) and i < 4000:
+        conds, call, g = sx.hits[i]
+        i += 1
+        for a in [*call.args, *[k.value for k in call.keywords]]:
+            if sx._helper(a, g) is not None:
+                sx.values(a, State({}, tuple(conds)), g, 1)
+
+
+def _decisions_on(e: ast.AST, is_key: Any) -> list[str]:
+    """the places inside e where a decision is taken on a key (or on something computed from it by its own methods / by indexing it):
+    an operand of a comparison, the receiver or argument of a string / table test, the key of a lookup.  What happens inside a call of the
+    classifier is the classifier's business."""
+
+    def derived(x: ast.AST) -> bool:
+        if isinstance(x, ast.Call) and _last(x) == _CLASSIFIER:
+            return False
+        if is_key(x):
+            return True
+        if isinstance(x, ast.Call) and isinstance(x.func, ast.Attribute):
+            return derived(x.func.value)
+        if isinstance(x, ast.Subscript):
+            return derived(x.value)
+        return False
+
+    out: list[str] = []
+    todo = [e]
+    while todo:
+        n = todo.pop()
+        if isinstance(n, ast.Call) and _last(n) == _CLASSIFIER:
+            continue
+        ops: list[ast.AST] = []
+        if isinstance(n, ast.Compare):
+            ops = [n.left, *n.comparators]
+        elif isinstance(n, ast.Call) and isinstance(n.func, ast.Attribute) and n.func.attr in _KEY_TESTS:
+            ops = [n.func.value, *n.args]
+        elif isinstance(n, ast.Call) and call_name(n).startswith(("re.", "fnmatch.")):
+            ops = list(n.args)
+        elif isinstance(n, ast.Subscript) and not (isinstance(n.slice, ast.Name) and n.slice.id == "*"):
+            ops = [n.slice]
+        if ops and _own_mapping_lookup(n):
+            ops = []  # `content[key]` for a key of `content`: fetching the entry that belongs to the key, not classifying the key
+        if any(derived(o) for o in ops):
+            out.append(norm(n)[:80])
+        todo += list(ast.iter_child_nodes(n))
+    return out
+
+
+def _own_mapping_lookup(n: ast.AST) -> bool:
+    """`M[k]` / `M.get(k, ...)` / `k in M` where k is an element of iterating M itself (`M[*]`, `M.keys()[*]`, `M.items()[*][0]`)"""
+    if isinstance(n, ast.Subscript):
+        m, k = n.value, n.slice
+    elif isinstance(n, ast.Call) and isinstance(n.func, ast.Attribute) and n.func.attr == "get" and n.args:
+        m, k = n.func.value, n.args[0]
+    elif isinstance(n, ast.Compare) and len(n.ops) == 1 and isinstance(n.ops[0], (ast.In, ast.NotIn)):
+        m, k = n.comparators[0], n.left
+    else:
+        return False
+    mt = norm(m)
+    return norm(k) in (f"{mt}[*]", f"{mt}.keys()[*]", f"{mt}.items()[*][0]", f"list({mt})[*]")
+
+
+def _r163_media_types(rep: Report, ix: Any) -> None:
+    """Wherever the parser decides what a media type is (the source of a response, the kind of a body), it decides on the result of
+    get_content_type - which is where content_type_overrides is applied - and never on the document's key itself; the key is only handed
+    to the classifier and emitted.  Decided on values: the two entry points are executed symbolically with their private helpers inlined,
+    so a test is recognised by what it tests, whatever the locals are called, whether the key's name is reused for the result, and
+    wherever the classification is moved."""
+    for fname in ("responses.response_from_data", "bodies.body_from_data"):
+        f = ix.func(fname)
+        sx = SymExec(ix, watch=lambda c: True, record=True)
+        sx.run(f)
+        _expand_argument_helpers(sx)
+        cls_hits = [(call, g) for _, call, g in sx.hits if _last(call) == _CLASSIFIER]
+        at = cls_hits[0][1] if cls_hits else next((g for g in region(ix, f) if any(_last(c) == _CLASSIFIER for c in ast.walk(g.node) if isinstance(c, ast.Call))), f)
+        rep.check(bool(cls_hits), "R16.3", f"{short(at)}::classifies-through-get_content_type", "media types are not classified through get_content_type",
+                  where(at, at.node))
+        if not cls_hits:
+            continue
+        # the document's own key is whatever is handed to the classifier
+        keys = set()
+        for call, g in cls_hits:
+            a = call.args[0] if call.args else {k.arg: k.value for k in call.keywords}.get("content_type")
+            if a is not None and norm(a) != UNKNOWN:
+                keys.add(norm(a))
+        rep.require(keys, f"the media type key handed to get_content_type in {short(f)} (resolvable to the document)")
+        seen: set[int] = set()
+        exprs: list[ast.AST] = list(sx.recorded or [])  # every test and every value computed on the way, in terms of the inputs
+        for conds, call, _ in sx.hits:
+            exprs += [e for e, _ in conds] + [call]
+        for st, rv in sx.exits:
+            exprs += [e for e, _ in st.conds] + [rv]
+        memo: dict[int, bool] = {}
+
+        def is_key(x: ast.AST) -> bool:
+            if not isinstance(x, (ast.Name, ast.Attribute, ast.Subscript)):
+                return False
+            if id(x) not in memo:
+                memo[id(x)] = norm(x) in keys
+            return memo[id(x)]
+
+        bad: set[str] = set()
+        for e in exprs:
+            if id(e) in seen:
+                continue
+            seen.add(id(e))
+            bad |= set(_decisions_on(e, is_key))
+        rep.check(not bad, "R16.3", f"{short(at)}::classification-uses-overridden-type",
+                  f"the raw media type key is tested directly ({sorted(bad)[:4]}): content_type_overrides has no effect on this decision", where(at, at.node),
+                  lhs=sorted(bad), rhs="only the result of get_content_type(<key>) is tested")
+        if fname.startswith("bodies."):
+            made = [(call, g) for _, call, g in sx.hits if _last(call) == "Body"]
+            rep.require(made, "Body(...) construction reached from body_from_data")
+            sent = {norm(v) for call, _ in made for v in [{k.arg: k.value for k in call.keywords}.get("content_type", call.args[0] if call.args else None)]
+                    if v is not None}
+            rep.require(sent, "the content_type of Body(...)")
+            wrong = sorted(sent - keys)
+            rep.check(not wrong, "R16.3", "body_from_data::content-type-is-the-documents-key",
+                      "the Content-Type that will be sent is the normalised/overridden media type, not the one the document declares", where(made[0][1], made[0][0]),
+                      lhs=sorted(sent), rhs=sorted(keys))
+
+
+# ---- R16.4: tags --------------------------------------------------------------------------------------------------------------------
+
+def _tag_list_shapes(e: ast.AST, conds: tuple = ()) -> list[tuple[tuple, tuple[bool, bool] | None]]:
+    """each (condition, (keeps the document's order, cut to the first element)) of a value computed from `<operation>.tags` by mapping,
+    copying, choosing and taking the first; the shape is None for anything else (sorted / set / filtered / built some other way)"""
+
+    def cut(inner: list, ok: bool) -> list:
+        return [(c, (sh[0], True) if ok and sh is not None else None) for c, sh in inner]
+
+    if isinstance(e, (ast.ListComp, ast.GeneratorExp)):
+        if len(e.generators) != 1 or e.generators[0].ifs or e.generators[0].is_async:
+            return [(conds, None)]
+        return _tag_list_shapes(e.generators[0].iter, conds)
+    if isinstance(e, ast.Call) and call_name(e) in ("list", "tuple") and len(e.args) == 1 and not e.keywords:
+        return _tag_list_shapes(e.args[0], conds)
+    if isinstance(e, ast.Subscript) and isinstance(e.slice, ast.Slice):
+        lo, hi, step = e.slice.lower, e.slice.upper, e.slice.step
+        first_only = (lo is None or (isinstance(lo, ast.Constant) and lo.value in (0, None))) and isinstance(hi, ast.Constant) and hi.value == 1 and \
+            (step is None or (isinstance(step, ast.Constant) and step.value in (1, None)))
+        return cut(_tag_list_shapes(e.value, conds), first_only)
+    if isinstance(e, ast.List) and len(e.elts) == 1 and isinstance(e.elts[0], ast.Subscript) and isinstance(e.elts[0].slice, ast.Constant) and e.elts[0].slice.value == 0:
+        return cut(_tag_list_shapes(e.elts[0].value, conds), True)  # [xs[0]] of a never-empty list
+    if isinstance(e, ast.IfExp):
+        return _tag_list_shapes(e.body, conds + ((e.test, True),)) + _tag_list_shapes(e.orelse, conds + ((e.test, False),))
+    if isinstance(e, ast.BoolOp) and isinstance(e.op, ast.Or):
+        # `<operation>.tags or [<constant>, ...]`: the declared tags, a fixed name when there are none
+        declared = isinstance(e.values[0], ast.Attribute) and e.values[0].attr == "tags"
+        fallback = all(isinstance(v, (ast.List, ast.Tuple)) and all(isinstance(x, ast.Constant) for x in v.elts) for v in e.values[1:])
+        return [(conds, (True, False) if declared and fallback else None)]
+    if isinstance(e, ast.Attribute) and e.attr == "tags":
+        return [(conds, (True, False))]
+    return [(conds, None)]
+
+
+def _r164_tags(rep: Report, ix: Any, callers: dict[str, list[Any]]) -> None:
+    """The tags an operation is filed under are the document's, in the document's order: all of them when generate_all_tags is on, the
+    first one when it is off - decided on the value that reaches `Endpoint.from_data(tags=...)` on every path, however it is computed
+    (statement or conditional expression, either branch order, cut before or after the names are built).  Every collection of those tags
+    then receives the endpoint object itself."""
+    fd = ix.func("EndpointCollection.from_data")
+    sx = SymExec(ix, watch=lambda c: call_name(c).endswith("Endpoint.from_data"))
+    sx.run(fd)
+    hits = [(c, call, g) for c, call, g in sx.hits if consistent(c)]
+    rep.require(hits, "Endpoint.from_data(...) call")
+    unordered: list[tuple[str, str]] = []
+    miscut: list[tuple[str, str]] = []
+    n = 0
+    for conds, call, g in hits:
+        tv = {k.arg: k.value for k in call.keywords}.get("tags")
+        rep.require(tv is not None, "the tags= argument of Endpoint.from_data(...)")
+        for ac, sh in _tag_list_shapes(tv):
+            allc = tuple(conds) + tuple(ac)
+            if not consistent(allc):
+                continue
+            n += 1
+            if sh is None or not sh[0]:
+                unordered.append((norm(tv)[:160], conds_text(allc)[-120:]))
+                continue
+            atoms: list = []
+            for e, _ in allc:
+                _atoms(e, atoms)
+            opt = [a for a in atoms if a[0] == "truthy" and a[1].rsplit(".", 1)[-1] == "generate_all_tags"]
+            on = any(implies(allc, a, True) for a in opt)
+            off = any(implies(allc, a, False) for a in opt)
+            if not ((on and not sh[1]) or (off and sh[1])):
+                miscut.append((norm(tv)[:160], "generate_all_tags is " + ("on" if on else "off" if off else "not tested on this path")))
+    rep.require(n, "a value for the tags of an operation")
+    rep.check(not unordered, "R16.4", "EndpointCollection.from_data::tags-keep-document-order",
+              "tags are reordered / de-duplicated through a set: with generate_all_tags off the module lands under another tag than the first listed",
+              where(fd, fd.node), lhs=unordered[:3] or "document order", rhs="[PythonIdentifier(tag) for tag in operation.tags or ['default']]")
+    rep.check(not miscut, "R16.4", "EndpointCollection.from_data::first-tag-unless-all", "`tags[:1]` is not applied exactly when generate_all_tags is off",
+              where(fd, fd.node), lhs=miscut[:3] or "all tags / the first tag", rhs="all tags when generate_all_tags, else the first")
+    # every collection of the operation receives the endpoint object itself: what is appended to `<collection>.endpoints` is the local that
+    # holds the result of Endpoint.from_data, appended in a loop over all the collections (or all the tags - the value decided above) that
+    # selects the collection by the loop variable and does not rebind the endpoint
+    def is_tags(fn: Any, v: ast.AST) -> bool:
+        return isinstance(v, ast.Name) and any(
+            k.arg == "tags" and isinstance(k.value, ast.Name) and k.value.id == v.id
+            for c in ast.walk(fn.node) if isinstance(c, ast.Call) and call_name(c).endswith("Endpoint.from_data") for k in c.keywords)
+
+    def all_collections(fn: Any, v: ast.AST) -> bool:
+        """the tags themselves, or one collection per tag: `[<map>.setdefault(tag, ...) | <map>[tag] for tag in <tags>]`"""
+        if is_tags(fn, v):
+            return True
+        return isinstance(v, (ast.ListComp, ast.GeneratorExp)) and len(v.generators) == 1 and not v.generators[0].ifs and is_tags(fn, v.generators[0].iter) and \
+            names_in(v.elt) >= names_in(v.generators[0].target)
+
+    apps = [(g, c) for g in region(ix, fd) for r, c in receivers(g.node, "append") if r.rsplit(".", 1)[-1] == "endpoints"]
+    bad = []
+    for g, c in apps:
+        x = c.args[0] if len(c.args) == 1 else None
+        is_endpoint = isinstance(x, ast.Name) and any(
+            isinstance(v, ast.Subscript) and isinstance(v.value, ast.Call) and call_name(v.value).endswith("Endpoint.from_data")
+            for _, v in _origins(ix, g, x, callers, unpack=True))
+        loops = [lp for lp in ast.walk(g.node) if isinstance(lp, (ast.For, ast.AsyncFor)) and any(y is c for y in ast.walk(lp))]
+        inner = min(loops, key=lambda lp: sum(1 for _ in ast.walk(lp)), default=None)
+        over_all = inner is not None and all(all_collections(fn, v) for fn, v in _origins(ix, g, inner.iter, callers, unpack=True, stop=is_tags))
+        selected = inner is not None and bool(names_in(inner.target) & _names_behind(c.func.value, g.node))
+        rebound = inner is not None and isinstance(x, ast.Name) and x.id in _touched([inner])
+        if not (is_endpoint and over_all and selected and not rebound):
+            bad.append(norm(c)[:100] + (" (not the object returned by Endpoint.from_data)" if not is_endpoint else " (not in a loop over every collection)"
+                                        if not (over_all and selected) else " (rebound per collection)"))
+    rep.check(bool(apps) and not bad, "R16.4", "EndpointCollection.from_data::same-endpoint-object",
+              "collections receive per-tag copies", where(fd, fd.node), lhs=bad or [norm(c) for _, c in apps], rhs="<collection>.endpoints.append(<endpoint>)")
+
+
+def _free_names(e: ast.AST) -> set[str]:
+    """names an expression reads from its surroundings (not the variables of its own comprehensions / lambdas)"""
+    own = {n.id for c in ast.walk(e) if isinstance(c, ast.comprehension) for n in ast.walk(c.target) if isinstance(n, ast.Name)}
+    own |= {a.arg for lam in ast.walk(e) if isinstance(lam, ast.Lambda) for a in [*lam.args.posonlyargs, *lam.args.args, *lam.args.kwonlyargs]}
+    return names_in(e) - own
+
+
+def _names_behind(e: ast.AST, fn: ast.AST, depth: int = 2) -> set[str]:
+    """the names an expression is computed from, locals followed to what they are bound from"""
+    lc = Locals(fn)
+    out = _free_names(e)
+    frontier = set(out)
+    for _ in range(depth):
+        nxt: set[str] = set()
+        for nm in frontier:
+            for v in lc.values_of(nm):
+                nxt |= _free_names(v) - out
+        out |= nxt
+        frontier = nxt
+    return out
 
 
 def _text_write(c: ast.Call) -> str | None:
@@ -233,17 +614,6 @@ def _text_write(c: ast.Call) -> str | None:
         if isinstance(mode, ast.Constant) and isinstance(mode.value, str) and any(ch in mode.value for ch in "wax+") and "b" not in mode.value:
             return "open-for-writing"
     return None
-
-
-def _is_config_encoding(v: ast.AST, it: Any, cfgc: Any) -> bool:
-    """`<Config object>.file_encoding`: the receiver is a Config for the abstract interpreter, or (where it has no value for the node) is
-    spelled as the `config` attribute / parameter"""
-    if not (isinstance(v, ast.Attribute) and v.attr == "file_encoding"):
-        return False
-    av = it.node_av.get(id(v.value))
-    if av is not None and av.types:
-        return cfgc.qual in av.types
-    return norm(v.value).rsplit(".", 1)[-1] == "config"
 
 
 def _write_events(ix: Any, f: Any, stack: set[str]) -> int:
@@ -568,10 +938,11 @@ def _element(it_: ast.AST, idx: int | None = None) -> ast.AST:
 class SymExec:
     MAX_STATES = 256
 
-    def __init__(self, ix: Any, watch: Any = None, inline_depth: int = 2) -> None:
+    def __init__(self, ix: Any, watch: Any = None, inline_depth: int = 2, record: bool = False) -> None:
         self.ix = ix
         self.watch = watch
         self.inline_depth = inline_depth
+        self.recorded: list[ast.AST] | None = [] if record else None  # every expression a statement evaluates (tests included), substituted
         self.hits: list[tuple[tuple[Cond, ...], ast.Call, Any]] = []  # (path condition, watched call with locals substituted, function)
         self.exits: list[tuple[State, ast.AST]] = []                  # of the outermost function: (final state, returned value)
 
@@ -693,6 +1064,9 @@ class SymExec:
 
     def _stmt(self, st: ast.stmt, s: State, rets: list, f: Any, depth: int) -> list[State]:
         self._note(st, s, f)
+        if self.recorded is not None:
+            own = [getattr(st, a, None) for a in ("test", "value", "iter", "subject", "exc")] + [i.context_expr for i in getattr(st, "items", []) or []]
+            self.recorded += [substitute(e, s.env) for e in own if isinstance(e, ast.AST)]
         if isinstance(st, (ast.Assign, ast.AnnAssign)):
             if st.value is None:
                 return [s]
